@@ -72,10 +72,11 @@ CHECKS = {
              tech="Lean 4 proof (state-equivalence congruence of step; unfolding) + differential correspondence + oracle", ref="§6 C02"),
  "C15": dict(text="C15_inprocess: after ANY operation sequence (any topics, rejected operations, both read APIs, peeks, offset reads) `count` reports "
              "(entries of successful appends) - (entries returned by consuming reads), both computed from the history itself; C15_peeks_not_counted. "
-             "Restart clause: partial - decided by correspondence (Eng recovery scan + count rebuild vs the real engine) and the oracle on restart "
-             "histories; violations in the regions of the open findings emptyBlockAllocated / scanStopsAtEmptyBlock / clockRegressionReordersFiles "
+             "Restart clause: C15_with_restarts - for every history with clean StrictlyAtOnce restarts anywhere in it (restart model AEngR, friendly region), count = appended - consumed "
+             "read off the history with the restarts removed (acceptsR_strip: a history accepted with restarts is accepted without them). The recovery scan + count rebuild themselves are tied by "
+             "correspondence (Eng vs the real engine) and the oracle on restart histories; violations in the regions of the open findings emptyBlockAllocated / scanStopsAtEmptyBlock / clockRegressionReordersFiles "
              "are reported as KNOWN-FINDING (sealThenAllocFail is repaired).",
-             note=BASE_NOTE + "In-process theorem on the entry-level model AEng (tied by correspondence). The restart clause has no theorem yet.",
+             note=BASE_NOTE + "Theorems on the entry-level models AEng / AEngR (tied by correspondence); the restart theorem covers clean restarts in StrictlyAtOnce within the region where no recovery finding fires; AtLeastOnce and killed restarts by oracle only.",
              tech="Lean 4 proof (corollary of the FIFO refinement, induction over histories) + differential correspondence + oracle", ref="§6 C15"),
  "C17": dict(text="Full-strength theorem C17_markers over the storage-level model Eng: along ANY history of engine operations (appends and batches incl. rejected "
              "ones, mark_topic_clean/dirty, both read APIs, reclamation, clock changes, clean close+open and process restarts at any point, the background "
